@@ -69,7 +69,7 @@ inductive Event
   | granFetch (cols : List String)
   | variantsFetch
   | metricFetch (name : String)
-deriving Repr
+deriving Repr, DecidableEq
 
 def aggrPart : MetricKind → Option AggrCols
   | .aggregated c => some c
@@ -88,6 +88,15 @@ def mergedAggr (metrics : List (String × MetricKind)) : AggrCols :=
 def mergedGran (metrics : List (String × MetricKind)) : List String :=
   (metrics.flatMap (fun m => (granPart m.2).getD [])).dedup
 
+/-- `_analyze_metric`: a metric is handed the pre-read dict when there is one for its kind; otherwise it
+is called on the data itself (and reads it) -/
+def refetch (hasA hasG : Bool) (m : String × MetricKind) : Option Event :=
+  match m.2 with
+  | .plain => some (Event.metricFetch m.1)
+  | .aggregated _ => if hasA then none else some (Event.metricFetch m.1)
+  | .granular _ => if hasG then none else some (Event.metricFetch m.1)
+  | .both _ _ => if hasA then none else if hasG then none else some (Event.metricFetch m.1)
+
 /-- the fetch events of `Experiment.analyze` over `npairs` pairs -/
 def analyzeTrace (metrics : List (String × MetricKind)) (variant : String) (npairs : Nat) : List Event :=
   let a := mergedAggr metrics
@@ -97,11 +106,31 @@ def analyzeTrace (metrics : List (String × MetricKind)) (variant : String) (npa
   (if hasA then [Event.aggFetch true a] else [])
   ++ (if hasG then [Event.granFetch (g ++ [variant])] else [])
   ++ (if !hasA && !hasG then [Event.variantsFetch] else [])
-  ++ (List.range npairs).flatMap (fun _ => metrics.filterMap (fun m =>
-        match m.2 with
-        | .plain => some (Event.metricFetch m.1)
-        | .aggregated _ => if hasA then none else some (Event.metricFetch m.1)
-        | .granular _ => if hasG then none else some (Event.metricFetch m.1)
-        | .both _ _ => if hasA then none else if hasG then none else some (Event.metricFetch m.1)))
+  ++ (List.range npairs).flatMap (fun _ => metrics.filterMap (refetch hasA hasG))
+
+end Experiment
+
+namespace Experiment
+
+/-- how a metric takes part in `Experiment.solve_power` -/
+inductive PowerKind
+  | aggregated (cols : AggrCols)   -- `PowerBaseAggregated`
+  | plain                          -- `PowerBase` only: reads the data itself
+  | notPower                       -- no power analysis: skipped
+deriving Repr
+
+def mergedPower (metrics : List (String × PowerKind)) : AggrCols :=
+  metrics.foldl (fun acc m => match m.2 with | .aggregated c => acc.or c | _ => acc) {}
+
+def powerRefetch (m : String × PowerKind) : Option Event :=
+  match m.2 with
+  | .plain => some (Event.metricFetch m.1)
+  | _ => none
+
+/-- the fetch events of `Experiment.solve_power` -/
+def solvePowerTrace (metrics : List (String × PowerKind)) : List Event :=
+  let a := mergedPower metrics
+  (if 0 < a.len then [Event.aggFetch false a] else [])
+  ++ metrics.filterMap powerRefetch
 
 end Experiment
